@@ -311,8 +311,10 @@ def w_wrongsig(ctx, wid, seed, examples):
 
 
 GOOD_LISTS = [('aa:bb', 'aa', 'bb'), ('0xaa:0xbb', 'aa', 'bb'), ('aa:bb,cc:dd', 'cc', 'dd'), ('sig1:alice', b'sig1'.hex(), b'alice'.hex()),
-              ('sha256(0x01):bb', R.sha256(b'\x01').hex(), 'bb'), ('aa:hash160(0x02)', 'aa', R.ripemd(R.sha256(b'\x02')).hex())]
-BAD_LISTS = ['abc', 'a:b:c', 'aa:bb,cc', 'aa,bb', 'aa:bb:cc,dd:ee', 'abcd:', 'aa:bb,cc:', 'sig1:', 'aa:,bb:cc', 'aa:bb,cc:,dd:ee', 'aa:bb,', 'aa:bb,cc:dd,', '']     # (a signature without its key, a trailing comma, the empty list)
+              ('sha256(0x01):bb', R.sha256(b'\x01').hex(), 'bb'), ('aa:hash160(0x02)', 'aa', R.ripemd(R.sha256(b'\x02')).hex()),
+              # the list is text of the user's: upper-case hex is the same bytes, a word with capital letters is exactly those characters
+              ('AABB:CCDD', 'aabb', 'ccdd'), ('SigA:PubA', b'SigA'.hex(), b'PubA'.hex()), ('sig1:pub1,SigB:PubB', b'SigB'.hex(), b'PubB'.hex()), ('sig1:sha256(Alice)', b'sig1'.hex(), R.sha256(b'Alice').hex())]
+BAD_LISTS = ['abc', 'a:b:c', 'aa:bb,cc', 'aa,bb', 'aa:bb:cc,dd:ee', 'abcd:', 'aa:bb,cc:', 'sig1:', 'aa:,bb:cc', 'aa:bb,cc:,dd:ee', 'aa:bb,', 'aa:bb,cc:dd,', 'aa:bb,,cc:dd', ',aa:bb', '']     # (a signature without its key, a trailing comma, the empty list)
 
 
 def w_cli(ctx, wid, seed):
